@@ -9,6 +9,7 @@ package main
 import (
 	"fmt"
 	"os"
+	"runtime/pprof"
 	"sort"
 	"time"
 
@@ -46,6 +47,22 @@ func main() {
 			tier = t
 		}
 		os.Exit(explore.RunCheck(chk, tier == "thorough"))
+	case "bench":
+		// bench <id> <seconds>: single-process exploration with a CPU profile (development aid)
+		chk := explore.Registry[os.Args[2]]
+		var secs int
+		fmt.Sscan(os.Args[3], &secs)
+		f, _ := os.Create("/tmp/mc.prof")
+		pprof.StartCPUProfile(f)
+		ex := explore.New(chk.ID, chk.Body, false)
+		dl := time.Now().Add(time.Duration(secs) * time.Second)
+		ex.Stop = func() bool { return time.Now().After(dl) }
+		if chk.Setup != nil {
+			chk.Setup(false, os.TempDir())
+		}
+		ex.Run(nil)
+		pprof.StopCPUProfile()
+		fmt.Println("leaves", ex.Stats.Leaves, "per leaf", time.Duration(secs)*time.Second/time.Duration(ex.Stats.Leaves+1))
 	case "replay":
 		os.Exit(explore.ReplayFile(os.Args[2]))
 	case "worker":
